@@ -70,6 +70,10 @@ def loop_nodes(L):
         # (with pass-through nodes the signal only arrives two or more supersteps after i changed; a default-open target would
         # legitimately start again meanwhile, so the longer form uses a closed gate and is a plain while-loop)
         g = {"name": "g", "defaults": {}, "default_open": max(2, k) <= 2, "params": ["i"] + lim_in, "wait_for": ["tick"]}
+        if L.get("gate_free_running") and L.get("b0_waits") and max(2, k) > 2:
+            # the gate does not wait: it decides again as soon as i has changed, supersteps before the write-out chain has emitted the
+            # signal its TARGET waits for
+            g.pop("wait_for")
         cond = f"i < {lim}"
         if L["gate"] == "ifelse":
             g.update({"k": "ifelse", "t": "b0", "f": stop, "expr": cond})
